@@ -5,6 +5,7 @@ import (
 	"os"
 	"go/token"
 	"go/types"
+	"sort"
 	"strings"
 
 	"golang.org/x/tools/go/ssa"
@@ -98,6 +99,107 @@ func (f *Frame) bumpAllocFresh() {
 	f.st["alloc"] = nv
 }
 
+// stableAcross: for every spec function declared `stable` whose read arrays were just given new versions that differ from
+// the old ones at newly allocated locations only: its value on arguments that existed before is the same in both states.
+func (f *Frame) stableAcross(ms ModSet, allowed map[string][]T, pre State, allocPre T) {
+	var names []string
+	for n := range f.p.stable {
+		names = append(names, n)
+	}
+	sort.Strings(names)
+	for _, n := range names {
+		sf, ok := f.p.specs[n]
+		if !ok || sf.Def != nil || len(sf.Reads) == 0 {
+			continue
+		}
+		touched, okAll := "", true
+		var olds, news []T
+		var rsorts []Sort
+		for _, r := range sf.Reads {
+			if strings.HasSuffix(r, "[]") {
+				okAll = false
+				break
+			}
+			srt, known := f.enc.stateSort[r]
+			if !known {
+				srt = f.readSortSafe(r)
+				if srt == "" {
+					okAll = false
+					break
+				}
+			}
+			o := stOr(f.enc, pre, r, srt)
+			nw := stOr(f.enc, f.st, r, srt)
+			if _, mod := ms[r]; mod && o.S != nw.S {
+				freshOnly := ms[r] == ModFresh
+				if !freshOnly && allowed != nil {
+					if refs, has := allowed[r]; has && len(refs) == 0 {
+						freshOnly = true
+					}
+				}
+				if !freshOnly {
+					okAll = false
+					break
+				}
+				if touched == "" {
+					touched = nw.S
+				}
+			}
+			olds, news, rsorts = append(olds, o), append(news, nw), append(rsorts, srt)
+		}
+		if !okAll || touched == "" {
+			continue
+		}
+		tr := &Translator{f: f, cur: f.st, old: f.st}
+		var psorts []Sort
+		var decl, vars, guards []string
+		bad := false
+		for i, p := range sf.Params {
+			ps := f.p.sortOf(tr.goType(p.Type))
+			v := fmt.Sprintf("a!s%d", i)
+			switch ps {
+			case SInt:
+				if _, isPtr := tr.goType(p.Type).Underlying().(*types.Basic); !isPtr {
+					guards = append(guards, fmt.Sprintf("(<= %s %s)", v, allocPre.S))
+				}
+			case SIface:
+				guards = append(guards, fmt.Sprintf("(=> (ptrlike (tag %s)) (<= (pl_Int %s) %s))", v, v, allocPre.S))
+				guards = append(guards, fmt.Sprintf("(=> (slicelike (tag %s)) (<= (sptr (pl_Slice %s)) %s))", v, v, allocPre.S))
+			case SBool, SStr:
+			default:
+				bad = true
+			}
+			psorts = append(psorts, ps)
+			decl = append(decl, fmt.Sprintf("(%s %s)", v, ps))
+			vars = append(vars, v)
+		}
+		if bad {
+			continue
+		}
+		var rs Sort
+		if sf.Ret == "real" {
+			rs = SReal
+		} else {
+			rs = f.p.sortOf(tr.goType(sf.Ret))
+		}
+		f.enc.declSortOf(rs)
+		fn := f.enc.declFun("spec_"+sf.Name, append(append([]Sort{}, psorts...), rsorts...), rs)
+		app := func(arrs []T) string {
+			parts := append([]string{}, vars...)
+			for _, a := range arrs {
+				parts = append(parts, a.S)
+			}
+			return "(" + fn + " " + strings.Join(parts, " ") + ")"
+		}
+		g := "true"
+		if len(guards) > 0 {
+			g = "(and " + strings.Join(guards, " ") + ")"
+		}
+		f.enc.addFact(touched, fmt.Sprintf("(assert (forall (%s) (! (=> %s (= %s %s)) :pattern (%s))))", strings.Join(decl, " "), g, app(news), app(olds), app(news)))
+		f.enc.assumed["spec function "+sf.Name+" declared stable: unchanged by calls that write only newly allocated locations of the arrays it reads"] = true
+	}
+}
+
 // havocMods: assign fresh versions to the state variables in ms. Returns pre-state.
 // allowed (optional): per array, the only pre-existing indices that may have changed.
 func (f *Frame) havocMods(ms ModSet, allowed map[string][]T) State {
@@ -147,6 +249,7 @@ func (f *Frame) havocMods(ms ModSet, allowed map[string][]T) State {
 			}
 		}
 	}
+	f.stableAcross(ms, allowed, pre, allocPre)
 	return pre
 }
 
@@ -180,6 +283,7 @@ func (f *Frame) callStatic(v ssa.Value, fn *ssa.Function, argVals []ssa.Value, a
 		return
 	}
 	name := f.p.fname(fn)
+	f.atCall(fn.Name(), pos)
 	con := f.p.contracts[name]
 	if con != nil && con.Pure {
 		f.setResults(v, []T{f.pureApp(name, fn.Signature, args)})
@@ -559,9 +663,51 @@ func (f *Frame) pureApp(name string, sig *types.Signature, args []T) T {
 	return f.enc.cachedApp(App(rs, fn, args...))
 }
 
+// atCall: class `call` obligations for the caller's `atcall` clauses naming this callee, in the caller's scope and state
+// immediately before the call (then assumed, like an assert statement).
+func (f *Frame) atCall(callee string, pos token.Pos) {
+	if f.con == nil || f.oblPfx != "" {
+		return
+	}
+	for k, ac := range f.con.AtCalls {
+		if ac.Callee != callee {
+			continue
+		}
+		tr := f.translator(f.cur, nil, f.st, nil)
+		nm := fmt.Sprintf("%s.%s", callee, clauseName(ac, k))
+		o := f.obligeNamed("call", fmt.Sprintf("%s#%d", nm, f.callOrdinal(callee, pos)), pos, tr.boolExpr(ac.Expr), ac.Props)
+		f.addUses(o, f.con.Uses, tr)
+	}
+}
+
+// callOrdinal: 1-based index of the call at pos among the calls of callee in this function, in source order
+func (f *Frame) callOrdinal(callee string, pos token.Pos) int {
+	n := 1
+	for _, b := range f.fn.Blocks {
+		for _, in := range b.Instrs {
+			ci, ok := in.(ssa.CallInstruction)
+			if !ok {
+				continue
+			}
+			c := ci.Common()
+			name := ""
+			if c.IsInvoke() {
+				name = c.Method.Name()
+			} else if sf := c.StaticCallee(); sf != nil {
+				name = sf.Name()
+			}
+			if name == callee && ci.Pos() < pos {
+				n++
+			}
+		}
+	}
+	return n
+}
+
 func (f *Frame) doInvoke(v ssa.Value, c *ssa.CallCommon, pos token.Pos) {
 	recv := f.val(c.Value)
 	f.oblige("panic", "nil-iface-call("+c.Method.Name()+")", pos, Not(Eq(App(SInt, "tag", recv), Zero)))
+	f.atCall(c.Method.Name(), pos)
 	args := []T{recv}
 	for _, a := range c.Args {
 		args = append(args, f.val(a))
@@ -629,7 +775,39 @@ func (f *Frame) doInvoke(v ssa.Value, c *ssa.CallCommon, pos token.Pos) {
 		}
 		ms := ModSet{}
 		f.p.callModsInvoke(c, ms)
-		old := f.havocMods(ms, nil)
+		// as for a static call under contract: the locations the interface contract's assigns names are the only old
+		// ones havoced, and they are checked against the caller's own frame
+		var allowed map[string][]T
+		var locs []assignLoc
+		if con.HasAssigns {
+			var err error
+			locs, _, err = f.p.assignLocs(con, sig)
+			if err != nil {
+				panic(trErr{key + ": " + err.Error()})
+			}
+			allowed = map[string][]T{}
+			trp := &Translator{f: f, env: env, cur: pre, old: pre}
+			for _, l := range locs {
+				if l.all {
+					continue
+				}
+				if l.pred != nil {
+					allowed[l.array] = append(allowed[l.array], T{"PRED:" + l.pred(trp, T{"r!PLACE", SInt}).S, SBool})
+				} else {
+					allowed[l.array] = append(allowed[l.array], l.ref(trp))
+				}
+				f.enc.stateSort[l.array] = l.sort
+			}
+			for _, l := range locs {
+				if l.all {
+					delete(allowed, l.array)
+				}
+			}
+			if f.frameCallHook != nil {
+				f.frameCallHook(f, key, ms, locs, true, &Translator{f: f, env: env, cur: pre, old: pre}, pos)
+			}
+		}
+		old := f.havocMods(ms, allowed)
 		res := f.freshResults(v, v.Name())
 		rn := resultNames(con, sig)
 		for i, r := range res {
